@@ -48,6 +48,12 @@ def _fitted_name(a: str) -> bool:
     return a.endswith("_") and not a.startswith("_") and not a.endswith("__")
 
 
+def _private_state(a: str) -> bool:
+    """private attributes (self._categories): only their in-place MUTATION on a
+    fit path is tracked, plain reads of private configuration are not."""
+    return a.startswith("_") and not a.startswith("__") and not a.endswith("_")
+
+
 # ------------------------------------------------------------------ C03.a
 def _nonnull_facts(fi: FunctionInfo):
     """forward must-analysis: set of expression texts known to be not None."""
@@ -178,6 +184,40 @@ def check_a(ck, repo):
     return n
 
 
+SEED_NAMES = {"random_state", "seed"}
+
+
+def check_seed_truthiness(ck, repo):
+    """0 is a valid seed: a seed must be compared with None, never tested for truth."""
+    n = 0
+    for fi in sorted(repo.all_functions.values(), key=lambda f: f.qualname):
+        if fi.module.name.startswith("mlinsights.ext_test_case"):
+            continue
+        tests = []
+        for x in own_nodes_incl_lambda(fi.node):
+            if isinstance(x, (ast.If, ast.While, ast.IfExp)):
+                tests.append(x.test)
+            elif isinstance(x, ast.Assert):
+                tests.append(x.test)
+        for t in tests:
+            stack = [t]
+            while stack:
+                e = stack.pop()
+                if isinstance(e, ast.BoolOp):
+                    stack.extend(e.values)
+                elif isinstance(e, ast.UnaryOp) and isinstance(e.op, ast.Not):
+                    stack.append(e.operand)
+                elif (
+                    (isinstance(e, ast.Name) and e.id in SEED_NAMES)
+                    or (isinstance(e, ast.Attribute) and e.attr in SEED_NAMES)
+                    or (isinstance(e, ast.Call) and isinstance(e.func, ast.Name) and e.func.id == "getattr" and len(e.args) >= 2 and const_value(e.args[1]) in SEED_NAMES)
+                ):
+                    n += 1
+                    ck.violated("C03.b", fi, t, f"truth test on the seed `{src_of(e)}`: random_state=0 is treated like None, so an integer seed no longer makes the result independent of the global stream")
+    if n == 0:
+        ck.holds("C03.b", None, "no truthiness test on random_state/seed in the package", "seeds are only compared with None", file="mlinsights", function="*", line=0, nontrivial=False)
+
+
 # ------------------------------------------------------------------ C03.b
 def check_b(ck, repo):
     for mod, cname in DETERMINISTIC_WITH_INT_SEED:
@@ -303,9 +343,16 @@ class AttrFlow:
                 ev.extend(self._expr_events(e, fi, selfname))
             for t in targets:
                 if is_self_attr(t, None, selfname):
-                    if _fitted_name(t.attr):
+                    if _fitted_name(t.attr) or _private_state(t.attr):
                         ev.append(("assign", t.attr))
                 else:
+                    # in-place update of private state (self._cache[k] = v): the object of a
+                    # previous fit keeps growing unless this fit assigned it first
+                    b = t
+                    while isinstance(b, ast.Subscript):
+                        b = b.value
+                    if b is not t and is_self_attr(b, None, selfname) and _private_state(b.attr):
+                        ev.append(("read", b.attr, t))
                     # reads inside subscripted targets: self.betas_[i, :] = ...
                     if isinstance(t, (ast.Subscript, ast.Attribute)):
                         ev.extend(self._expr_events(t, fi, selfname))
@@ -562,6 +609,7 @@ def run(ck):
         ck.rule(k, v)
     na = check_a(ck, repo)
     check_b(ck, repo)
+    check_seed_truthiness(ck, repo)
     nf = check_dce(ck, repo)
     ck.extra["rng_constructor_sites"] = na
     ck.extra["fit_methods_analysed"] = nf
@@ -584,6 +632,8 @@ WITNESSES = [
     {"name": "permutation-unguarded-seed", "file": _TI, "rule": "C03.a", "old": "        if self.random_state is None:\n            lin = numpy.random.permutation(lin)\n        else:\n            rs = numpy.random.RandomState(self.random_state)\n            lin = rs.permutation(lin)\n", "new": "        rs = numpy.random.RandomState(self.random_state)\n        lin = rs.permutation(lin)\n"},
     {"name": "permutation-global-stream", "file": _TI, "rule": "C03.b", "old": "        if self.random_state is None:\n            lin = numpy.random.permutation(lin)\n        else:\n            rs = numpy.random.RandomState(self.random_state)\n            lin = rs.permutation(lin)\n", "new": "        lin = numpy.random.permutation(lin)\n"},
     {"name": "kmeansl1-global-draw", "file": _KL, "rule": "C03.b", "old": "    center_id = random_state.randint(n_samples)\n", "new": "    center_id = numpy.random.randint(n_samples)\n"},
+    {"name": "piecewise-seed-truthiness", "file": _PE, "rule": "C03.b", "old": "        if nb_classes is None:\n            seeds = [None for _ in estimators]\n", "new": "        if nb_classes is None or not getattr(self, \"random_state\", None):\n            seeds = [None for _ in estimators]\n"},
+    {"name": "categories-accumulate", "file": "mlinsights/mlmodel/categories_to_integers.py", "rule": "C03.d", "old": "        self._categories = {}\n        for c in columns:", "new": "        for c in columns:"},
     {"name": "permutation-cache-not-reset", "file": _TI, "rule": "C03.c", "old": "        self.knn_ = None\n        self.knn_perm_ = None\n        return self\n", "new": "        return self\n"},
     {"name": "timeseries-no-reset", "file": _TB, "rule": "C03.d", "old": "        self.preprocessing_ = None\n        check_ts_X_y(self, X, y)\n", "new": "        check_ts_X_y(self, X, y)\n"},
     {"name": "timeseries-partial-attr", "file": _TB, "rule": "C03.e", "old": "        self.preprocessing_ = None\n        check_ts_X_y(self, X, y)\n", "new": "        check_ts_X_y(self, X, y)\n"},
